@@ -237,6 +237,12 @@ os.environ["VERIF_ALNUM"] = ALNUM
 
 def build_harness(plain=False):
     h = os.path.join(ROOT, "harness")
+    # the manifest is generated from a template so that the path dependencies follow VERIF_REPO
+    manifest = open(os.path.join(h, "Cargo.toml.in")).read().replace("@REPO@", REPO)
+    mpath = os.path.join(h, "Cargo.toml")
+    if not os.path.exists(mpath) or open(mpath).read() != manifest:
+        with open(mpath, "w") as f:
+            f.write(manifest)
     lock = os.path.join(h, "Cargo.lock")
     src_lock = os.path.join(REPO, "Cargo.lock")
     if not os.path.exists(lock) or open(lock).read() != open(src_lock).read():
